@@ -376,7 +376,54 @@ def m_misc(kind):
     return f
 
 
+def _has_repeat_ancestor(nodes, i):
+    p = nodes[i]["parent"]
+    while p is not None:
+        if nodes[p]["kind"] == "r":
+            return True
+        p = nodes[p]["parent"]
+    return False
+
+
+def m_saveto(kind):
+    """entity save_to errors (an entities sheet is added): the row loop cites the row"""
+    def f(rows, nodes, i, ch):
+        k = _row_of(rows, i)
+        q = nodes[i]["kind"] == "q"
+        rows.append({"_entities": [{"list_name": "trees", "label": "x"}]})
+        if kind == "in-repeat":
+            if not q or not _has_repeat_ancestor(nodes, i):
+                raise Skip
+            rows[k]["save_to"] = "p"
+            return E(k, True, phrase="repeat")
+        if kind == "on-container":
+            if q:
+                raise Skip
+            rows[k]["save_to"] = "p"
+            return E(k, True)
+        if kind in ("bad-name", "reserved-name", "reserved-label", "dunder"):
+            if not q or _has_repeat_ancestor(nodes, i):
+                raise Skip
+            rows[k]["save_to"] = {"bad-name": "1p", "reserved-name": "name", "reserved-label": "Label", "dunder": "__p"}[kind]
+            return E(k, True)
+        if kind == "no-entities-sheet":
+            if not q or _has_repeat_ancestor(nodes, i):
+                raise Skip
+            rows.pop()
+            rows[k]["save_to"] = "p"
+            return E(None, False)
+        raise AssertionError(kind)
+    return f
+
+
 CATALOGUE = {
+    "saveto-in-repeat": m_saveto("in-repeat"),
+    "saveto-on-container": m_saveto("on-container"),
+    "saveto-bad-name": m_saveto("bad-name"),
+    "saveto-reserved-name": m_saveto("reserved-name"),
+    "saveto-reserved-label": m_saveto("reserved-label"),
+    "saveto-dunder": m_saveto("dunder"),
+    "saveto-no-entities-sheet": m_saveto("no-entities-sheet"),
     "name-digit": m_invalid_name("1a"),
     "name-space": m_invalid_name("a b"),
     "name-dollar": m_invalid_name("a$"),
@@ -454,6 +501,8 @@ def build_cat(case):
     exp = CATALOGUE[case["mut"]](rows, nodes, case["site"], ch)
     blanks = case["blanks"]
     wb = {"survey": rows, "choices": ch, "external_choices": [dict(r) for r in EXT], "osm": [dict(r) for r in OSM]}
+    if rows and "_entities" in rows[-1]:
+        wb["entities"] = rows.pop()["_entities"]
     if blanks:
         sheet = exp["sheet"]
         at = exp["row"] if exp["row"] is not None else 0
